@@ -587,6 +587,8 @@ func runC19(r *core.Run) {
 				}
 			})
 	}
+	runC19ByteSweep(r)
+	runC19FilterNeighbours(r)
 	runC19Runes(r)
 	runC19Numeric(r)
 	runC19Filter(r)
@@ -659,5 +661,126 @@ func replayC19(r *core.Run, v *core.Violation) {
 		fmt.Println("operation-sequence replay: the file lists the exact calls; the search is deterministic, re-run ./run.sh C19 quick")
 	}
 	s.Evals.Add(1)
+	s.Done()
+}
+
+// runC19ByteSweep: the laws on every pair of byte values (all 65 536) behind every prefix that puts the functions into one
+// of their states (inside a percent escape, a numeric or named reference, a backslash escape, a multi-byte sequence) and in
+// front of a few suffixes; and on every three-byte string.
+func runC19ByteSweep(r *core.Run) {
+	prefixes := []string{"", "%", "%4", "a%", "\xc3\xa9%", "&", "&#", "&#x", "&#1", "&amp", "\\", "\xe3\x81", "[", "a "}
+	suffixes := []string{"", ";", "a"}
+	s := r.Sub("laws-byte-sweep", fmt.Sprintf("every law of laws-words on prefix + b1 b2 + suffix for every pair of byte values (0..255)² with prefix ∈ %q and suffix ∈ %q", prefixes, suffixes))
+	n := 65536
+	s.Planned = int64(n * len(prefixes) * len(suffixes))
+	s.Bound = fmt.Sprintf("256² pairs × %d prefixes × %d suffixes", len(prefixes), len(suffixes))
+	complete := core.ForEachIndex(n, core.Workers(), func(w int) func(int) {
+		var buf []byte
+		return func(i int) {
+			for _, p := range prefixes {
+				for _, sf := range suffixes {
+					buf = append(buf[:0], p...)
+					buf = append(buf, byte(i>>8), byte(i))
+					buf = append(buf, sf...)
+					word := append([]byte{}, buf...)
+					h := c19Laws(buf, func(sig, detail, want, got string) {
+						s.Violate(sig, "", word, nil, detail, want, got)
+					})
+					s.Evals.Add(1)
+					s.Distinct(h)
+				}
+			}
+			if i%13001 == 0 {
+				s.AddSample(core.Q([]byte{'%', byte(i >> 8), byte(i)}))
+			}
+		}
+	}, r.Expired)
+	if !complete {
+		s.Incomplete("internal deadline reached")
+	}
+	s.States.Store(s.Evals.Load())
+	s.Transitions.Store(s.Evals.Load())
+	s.Done()
+	s = r.Sub("laws-all-3-byte-strings", "every law of laws-words on every string of three bytes (256³)")
+	s.Planned = 1 << 24
+	s.Bound = "256³ strings"
+	complete = core.ForEachIndex(65536, core.Workers(), func(w int) func(int) {
+		return func(i int) {
+			for c := 0; c < 256; c++ {
+				word := []byte{byte(i >> 8), byte(i), byte(c)}
+				x := append([]byte{}, word...)
+				h := c19Laws(x, func(sig, detail, want, got string) {
+					s.Violate(sig, "", word, nil, detail, want, got)
+				})
+				s.Evals.Add(1)
+				s.Distinct(h)
+			}
+			if i%13001 == 0 {
+				s.AddSample(core.Q([]byte{byte(i >> 8), byte(i), 'c'}))
+			}
+		}
+	}, r.Expired)
+	if !complete {
+		s.Incomplete("internal deadline reached")
+	}
+	s.States.Store(s.Evals.Load())
+	s.Transitions.Store(s.Evals.Load())
+	s.Done()
+}
+
+// runC19FilterNeighbours: a BytesFilter is a set, exactly: filters built from a realistic vocabulary (the HTML global
+// attribute names, as one NewBytesFilter call, as NewBytesFilterString, and grown by Extend / ExtendString / Add in two
+// halves) contain every member and none of the names near the vocabulary (attrNameNeighbours: short names, substitutions,
+// transpositions, rearranged and crossed-over heads, head/tail crossovers).
+func runC19FilterNeighbours(r *core.Run) {
+	var allowed []string
+	for a := range globalAttrs {
+		allowed = append(allowed, a)
+	}
+	sort.Strings(allowed)
+	names := attrNameNeighbours(allowed, !r.Quick())
+	var bs [][]byte
+	for _, a := range allowed {
+		bs = append(bs, []byte(a))
+	}
+	half := len(bs) / 2
+	filters := map[string]util.BytesFilter{
+		"NewBytesFilter(all)":                util.NewBytesFilter(bs...),
+		"NewBytesFilterString(all)":          util.NewBytesFilterString(strings.Join(allowed, ",")),
+		"NewBytesFilter(half).Extend(rest)":  util.NewBytesFilter(bs[:half]...).Extend(bs[half:]...),
+		"NewBytesFilter().ExtendString(all)": util.NewBytesFilter().ExtendString(strings.Join(allowed, ",")),
+		"NewBytesFilter(rest).Extend(half)":  util.NewBytesFilter(bs[half:]...).Extend(bs[:half]...),
+	}
+	var fnames []string
+	for k := range filters {
+		fnames = append(fnames, k)
+	}
+	sort.Strings(fnames)
+	s := r.Sub("bytesfilter-neighbours", fmt.Sprintf("%d filters built in different ways from the %d HTML global attribute names: Contains is true for every member and false for each of %d names near the vocabulary (all names of ≤3 letters, substitutions, insertions, deletions, transpositions, rearranged heads, per-position crossovers, head/tail crossovers)", len(filters), len(allowed), len(names)))
+	s.Planned = int64(len(fnames) * (len(names) + len(allowed)))
+	s.Bound = fmt.Sprintf("%d filters × (%d members + %d non-members)", len(fnames), len(allowed), len(names))
+	for _, fn := range fnames {
+		f := filters[fn]
+		for _, a := range allowed {
+			s.Evals.Add(1)
+			if !f.Contains([]byte(a)) {
+				s.Violate("bytesfilter-differs-from-set:member-missing", "", []byte(a), []string{fn}, "a member of the set is not contained", "true", "false")
+			}
+		}
+		for _, n := range names {
+			s.Evals.Add(1)
+			if f.Contains([]byte(n)) {
+				s.Violate("bytesfilter-differs-from-set:non-member-contained", "", []byte(n), []string{fn}, "a name that was never added is contained", "false", "true")
+			}
+		}
+	}
+	for i, n := range names {
+		s.Distinct(core.Hash([]byte(n)))
+		if i%(len(names)/6+1) == 0 {
+			s.AddSample(n)
+		}
+	}
+	s.States.Store(int64(len(names) + len(allowed)))
+	s.Transitions.Store(s.Evals.Load())
 	s.Done()
 }
